@@ -364,8 +364,9 @@ Proof.
 Qed.
 
 (* ---- tangent selection, closed form ---- *)
-Definition dvmax (El E Er : Qc) : Qc := Qcmaxq (Qcabs (Er - E)) (Qcabs (El - E)).
-Definition dvmin (El E Er : Qc) : Qc := Qcminq (Qcabs (Er - E)) (Qcabs (El - E)).
+(* original.py: dv_r = |E - E_r|, dv_l = |E - E_l| (both in the unit of this image's energy) *)
+Definition dvmax (El E Er : Qc) : Qc := Qcmaxq (Qcabs (E - Er)) (Qcabs (E - El)).
+Definition dvmin (El E Er : Qc) : Qc := Qcminq (Qcabs (E - Er)) (Qcabs (E - El)).
 
 Ltac split_ifs :=
   repeat match goal with
@@ -384,7 +385,7 @@ Lemma tau_sel_closed El E Er xl x xr :
         else if Qcltb El Er then vadd Qc Qcplus (vscal Qc Qcmult dM tp) (vscal Qc Qcmult dm tm)
         else vadd Qc Qcplus (vscal Qc Qcmult dm tp) (vscal Qc Qcmult dM tm)).
 Proof.
-  intros tp tm dM dm. unfold tau_sel. rewrite !pabs_q, pmax_q, pmin_q.
+  intros tp tm dM dm. unfold tau_sel. cbv zeta. rewrite !pabs_q, !pmax_q, !pmin_q.
   cbn [oltb ofeqb oadd omul osub o0 Oq]. fold tp tm. unfold dvmax in dM. unfold dvmin in dm. fold dM dm.
   change (Q2Qc 0) with 0.
   split_ifs; reflexivity.
@@ -542,7 +543,7 @@ Qed.
 Lemma dv_tie El E Er : El = Er -> dvmin El E Er = dvmax El E Er.
 Proof.
   intros ->. unfold dvmin, dvmax, Qcminq, Qcmaxq.
-  destruct (Qcleb (Qcabs (Er - E)) (Qcabs (Er - E))); reflexivity.
+  destruct (Qcleb (Qcabs (E - Er)) (Qcabs (E - Er))); reflexivity.
 Qed.
 
 (* ============================================================================================ *)
